@@ -107,6 +107,9 @@ def convert(model: nn.Module,
         raise ValueError("Unsupported conversion type {}".format(conversion_type))
 
     # Symbolic Tracing
+    # tracing and shape propagation need eval(), but the caller's model (whose sub-modules are shared
+    # by reference with the converted one) gets the training flags it came with back at the end
+    found_training = [(m, m.training) for m in model.modules()]
     tracer = MPSTracer()
     graph = tracer.trace(model.eval())
     name = model.__class__.__name__
@@ -138,6 +141,9 @@ def convert(model: nn.Module,
             mod.to(input_example[0].device)(*input_example)
         else:
             mod.to(input_example.device)(input_example)
+    if conversion_type != 'export':
+        for m, mode in found_training:
+            m.training = mode
     return mod, nlf, ulf
 
 
